@@ -33,6 +33,7 @@ func runC06(c *Ctx, r *Report) {
 	c06Expansion(c, r)
 	c06WalkDecision(c, r, "C06-d/walk-decision")
 	c06WholeGzipStream(c, r, "C06-g/whole-gzip-stream")
+	c06GzipProbe(c, r, "C06-g/gzip-probe")
 	c06Stdin(c, r)
 	c03ExitStatusAs(c, r, "C06-f")
 }
